@@ -14,6 +14,8 @@ package main
 // op 6 table [kw] [k asc]    -> auto-complete listing walk through bbs.LoadAutoCompleteBoards: pages, visited positions
 // op 7 table [k asc]         -> by-class listing walk through bbs.LoadGeneralBoards(BSORT_BY_CLASS): pages, visited positions of
 //                               BSorted[by class]. A walk (op 5, 6, 7) that is not over after 2n+3 pages is status 2.
+// op 6 table [kw] [k asc]    -> (asc = 0: the same walk descending)
+// op 8 step step ...         -> a history of reloads / creations / lookups in fresh driver state (c11hist.go)
 
 import (
 	"bytes"
@@ -108,6 +110,10 @@ func init() {
 		teardown: func() { env.close() },
 		run: func(args [][]string) []string {
 			op := ai(args[0][0])
+			if op == 8 { // a history in fresh driver state: c11hist.go
+				last = "\x00"
+				return c11Scenario(env, args[1:])
+			}
 			load(args[1], args[2])
 			switch op {
 			case 0:
